@@ -151,6 +151,11 @@ def contract_factory(quick, seed):
                         g = (g,)
                     else:
                         val, g = ag.value_and_grad(f, tuple(range(len(diff))))(*[vals[j] for j in diff])
+                        # the same pull-back applied twice must route the same gradients twice
+                        vjp2, _ = ag.make_vjp(f, tuple(range(len(diff))))(*[vals[j] for j in diff])
+                        first = [onp.asarray(x, dtype=float).tolist() for x in vjp2(1.0)]
+                        second = [onp.asarray(x, dtype=float).tolist() for x in vjp2(1.0)]
+                        obs["twice"] = (first, second)
                     obs["value"], obs["grads"] = float(val), [onp.asarray(x, dtype=float).tolist() for x in g]
                     obs["grad_space_ok"] = all(L["ext"].vspace(x) == L["ext"].vspace(vals[j]) for x, j in zip(g, diff))
                 else:
@@ -215,6 +220,9 @@ def contract_factory(quick, seed):
                 V("wrong-routing", obs["grads"], want)
             elif not obs["grad_space_ok"]:
                 V("gradient-not-in-argument-space", obs["grads"], want)
+            if "twice" in obs and not (len(obs["twice"][0]) == len(want) and all(tol(a, b) for a, b in zip(obs["twice"][0], want))
+                                       and len(obs["twice"][1]) == len(want) and all(tol(a, b) for a, b in zip(obs["twice"][1], want))):
+                V("second-application-of-the-pullback-differs", obs["twice"], want)
             for j, gval in zip(o["diff"], obs["grads"]):
                 if j in o["nones"] and onp.any(onp.asarray(gval) != 0.0):
                     V("none-rule-not-zero", gval, 0.0)
@@ -308,7 +316,7 @@ def checkpoint_factory(quick, seed):
     def h(ch):
         prog, out = build_program(ch, nmax)
         x = ch.choose("x", [0.7 + 0.011 * (seed % 13), -0.45] if len(prog) <= 2 else [0.7 + 0.011 * (seed % 13)])
-        where = ch.choose("wrap", ["whole", "first-op", "nested-twice"])
+        where = ch.choose("wrap", ["whole", "first-op", "nested-twice", "whole-with-kwargs"])
 
         def f(xx):
             vals = []
@@ -330,7 +338,14 @@ def checkpoint_factory(quick, seed):
                     vals.append(ag.checkpoint(op)(get(ins[1]), get(ins[2])) if i == 0 else op(get(ins[1]), get(ins[2])))
             return vals[out]
 
-        g = {"whole": ag.checkpoint(f), "first-op": first_op_ck, "nested-twice": ag.checkpoint(ag.checkpoint(f))}[where]
+        # keyword arguments different from their defaults must reach the recomputation as well
+        f_plain = f
+        fk = lambda xx, scale=1.0, shift=0.0: scale * f_plain(xx) + shift * xx
+        ck = ag.checkpoint(fk)
+        g = {"whole": ag.checkpoint(f), "first-op": first_op_ck, "nested-twice": ag.checkpoint(ag.checkpoint(f)),
+             "whole-with-kwargs": (lambda xx: ck(xx, scale=3.0, shift=-2.0))}[where]
+        if where == "whole-with-kwargs":
+            f = lambda xx: 3.0 * f_plain(xx) - 2.0 * xx
         res = {}
         with warnings.catch_warnings():
             warnings.simplefilter("ignore")
